@@ -9,6 +9,11 @@
   `memoM`/`memoV` (identity, `memoM_eq`) and splitting stuck `if`s.  No arithmetic law of `α` is
   available (α is abstract), so the proofs certify that the expression TREES — operands, signs,
   constants, thresholds, branch conditions and the order of operations — coincide.
+
+  This file: tactics, the manifest of translated functions and the storage-view lemmas.  The ties
+  themselves are grouped by the property they support: SrcTieImplC01 (identity, matrix, composition,
+  inverse), C02 (exp, log), C03 (Ad, ad, hat, vee), C04 (dr_exp, dr_expinv and their helpers
+  calc_S1/S2/S1inv, calculate_q), C05 (d2r_exp, d2r_expinv).
 -/
 import SmoothModel
 import SmoothModel.EigenSem
@@ -16,6 +21,7 @@ import SmoothModel.Gen.ImplSrc
 import Mathlib.Tactic.FinCases
 import Mathlib.Data.Fintype.Basic
 import Mathlib.Data.Fin.Basic
+import Mathlib.Tactic.SplitIfs
 
 open Scalar Lin EigenSem
 
@@ -28,8 +34,6 @@ macro "tie_vec" : tactic =>
 /-- matrix equality entry by entry, each entry by `rfl` -/
 macro "tie_mat" : tactic =>
   `(tactic| (intros; apply Mat.ext'; intro i j; fin_cases i <;> fin_cases j <;> rfl))
-
-/-! ## the set of translated functions -/
 theorem manifest_eq : ImplSrc.manifest =
     ["SO2.setIdentity", "SO2.matrix", "SO2.composition", "SO2.inverse", "SO2.log", "SO2.exp", "SO2.hat",
      "SO2.vee",
@@ -43,41 +47,23 @@ theorem manifest_eq : ImplSrc.manifest =
      "SO3.dr_expinv", "SO3.d2r_exp", "SO3.d2r_expinv",
      "SE3.setIdentity", "SE3.matrix", "SE3.composition", "SE3.inverse", "SE3.log", "SE3.Ad", "SE3.exp",
      "SE3.hat", "SE3.vee", "SE3.ad", "SE3.calculate_q", "SE3.dr_exp", "SE3.dr_expinv"] := rfl
-
 theorem notTranslated_eq : ImplSrc.notTranslated =
     ["SO2.setRandom", "C1.setRandom", "Tn.setRandom", "SE2.setRandom", "SO3.setRandom", "SE3.setRandom",
      "SE3.calculate_Q_dQ", "SE3.d2r_exp", "SE3.d2r_expinv"] := rfl
-
-/-! ## SO2 (detail/so2.hpp) -/
-theorem so2_setIdentity : (ImplSrc.SO2.setIdentity : Vec α 2) = SO2.identity := rfl
-theorem so2_matrix (g : Vec α 2) : ImplSrc.SO2.matrix g = SO2.matrix g := rfl
-theorem so2_composition (a b : Vec α 2) : ImplSrc.SO2.composition a b = SO2.composition a b := rfl
-theorem so2_inverse (g : Vec α 2) : ImplSrc.SO2.inverse g = SO2.inverse g := rfl
-theorem so2_log (g : Vec α 2) : ImplSrc.SO2.log g = SO2.log g := rfl
-theorem so2_exp (a : Vec α 1) : ImplSrc.SO2.exp a = SO2.exp a := rfl
-theorem so2_hat (a : Vec α 1) : ImplSrc.SO2.hat a = SO2.hat a := rfl
-theorem so2_vee (A : Mat α 2 2) : ImplSrc.SO2.vee A = SO2.vee A := rfl
-
-/-! ## C1 (detail/c1.hpp) -/
-theorem c1_setIdentity : (ImplSrc.C1.setIdentity : Vec α 2) = C1.identity := rfl
-theorem c1_matrix (g : Vec α 2) : ImplSrc.C1.matrix g = C1.matrix g := rfl
-theorem c1_composition (a b : Vec α 2) : ImplSrc.C1.composition a b = C1.composition a b := rfl
-theorem c1_inverse (g : Vec α 2) : ImplSrc.C1.inverse g = C1.inverse g := rfl
-theorem c1_log (g : Vec α 2) : ImplSrc.C1.log g = C1.log g := rfl
-theorem c1_exp (a : Vec α 2) : ImplSrc.C1.exp a = C1.exp a := rfl
-theorem c1_hat (a : Vec α 2) : ImplSrc.C1.hat a = C1.hat a := rfl
-theorem c1_vee (A : Mat α 2 2) : ImplSrc.C1.vee A = C1.vee A := rfl
-
-/-! ## SE2 (detail/se2.hpp) -/
-theorem se2_setIdentity : (ImplSrc.SE2.setIdentity : Vec α 4) = SE2.identity := rfl
-theorem se2_matrix (g : Vec α 4) : ImplSrc.SE2.matrix g = SE2.matrix g := by tie_mat
-theorem se2_composition (a b : Vec α 4) : ImplSrc.SE2.composition a b = SE2.composition a b := by tie_vec
-theorem se2_inverse (g : Vec α 4) : ImplSrc.SE2.inverse g = SE2.inverse g := by tie_vec
-theorem se2_log (g : Vec α 4) : ImplSrc.SE2.log g = SE2.log g := by tie_vec
-theorem se2_Ad (g : Vec α 4) : ImplSrc.SE2.Ad g = SE2.Ad g := by tie_mat
-theorem se2_exp (a : Vec α 3) : ImplSrc.SE2.exp a = SE2.exp a := by tie_vec
-theorem se2_hat (a : Vec α 3) : ImplSrc.SE2.hat a = SE2.hat a := by tie_mat
-theorem se2_vee (A : Mat α 3 3) : ImplSrc.SE2.vee A = SE2.vee A := by tie_vec
-theorem se2_ad (a : Vec α 3) : ImplSrc.SE2.ad a = SE2.ad a := by tie_mat
+omit [Scalar α] in
+theorem tail4_so3 (g : Vec α 7) : tail 4 g = SE3.so3 g := by tie_vec
+omit [Scalar α] in
+theorem head3_r3 (g : Vec α 7) : head 3 g = SE3.r3 g := by tie_vec
+omit [Scalar α] in
+theorem tail3_tw (a : Vec α 6) : tail 3 a = SE3.tw a := by tie_vec
+omit [Scalar α] in
+theorem head3_tv (a : Vec α 6) : head 3 a = SE3.tv a := by tie_vec
+omit [Scalar α] in
+theorem tail3_setSegment (v : Vec α 6) (w : Vec α 3) : tail 3 (setSegment v 3 w) = w := by tie_vec
+omit [Scalar α] in
+theorem tail4_setSegment (v : Vec α 7) (w : Vec α 4) : tail 4 (setSegment v 3 w) = w := by tie_vec
+omit [Scalar α] in
+theorem block00_setBlock (A : Mat α 6 6) (J : Mat α 3 3) : blockM 3 3 0 0 (setBlock A 0 0 J) = J := by
+  tie_mat
 
 end SrcTieImpl
